@@ -110,6 +110,14 @@ pub fn wide_real(fun: usize, is32: bool, s: u8, u: f64, d: usize) -> f64 {
     }
 }
 
+/// a multiple k pi/4 (|k pi/4| <= max) plus a tiny offset (0, +-1e-10 .. 1.5e-9): zeros and extrema of sin /
+/// cos and the octant boundaries of any argument reduction
+fn pi4_multiple(s: u8, u: f64, max: f64) -> f64 {
+    let kmax = (max / std::f64::consts::FRAC_PI_4).floor();
+    let k = (u * (2.0 * kmax + 1.0)).floor() - kmax;
+    k * std::f64::consts::FRAC_PI_4 + (s >> 4) as f64 * 1e-10 * if s & 1 == 0 { 1.0 } else { -1.0 }
+}
+
 /// real part for function `fun` from stratum material; `is32` narrows ranges to what f32 can hold
 pub fn real_part(fun: usize, is32: bool, s: u8, u: f64) -> f64 {
     real_part_d(fun, is32, s % 230, u, 0)
@@ -135,6 +143,7 @@ pub fn real_part_d(fun: usize, is32: bool, s: u8, u: f64, d: usize) -> f64 {
     let big = if is32 { 40.0 } else { 300.0 };
     if fun >= 24 {
         return match fun {
+            24 | 25 if s % 7 == 6 => pi4_multiple(s, u, 400.0),
             24 | 25 => pick(&[(0.0, 4.0, false), (4.0, 100.0, false), (100.0, 1e4, false), TINY], true, s, u),
             26 => pick(&[(1e-2, 1e2, true), (0.0, 3.0, false)], true, s, u),
             27 => pick(&[(0.0, 3.0, false)], true, s, u),
@@ -158,7 +167,14 @@ pub fn real_part_d(fun: usize, is32: bool, s: u8, u: f64, d: usize) -> f64 {
                 _ => -pick(&[TINY], false, 0, u),
             }
         }
+        Fun::Sin | Fun::Cos if s % 7 == 6 => pi4_multiple(s, u, 400.0),
         Fun::Sin | Fun::Cos => pick(&[(0.0, 4.0, false), (4.0, 100.0, false), (100.0, 1e4, false), TINY], true, s, u),
+        Fun::Tan if s % 7 == 6 => {
+            // zeros k pi and the points (2k+1) pi/4; the poles are excluded by the domain margin
+            let k = (u * 60.0).floor() - 30.0;
+            let z = if s & 8 == 0 { k * std::f64::consts::PI } else { (2.0 * k + 1.0) * std::f64::consts::FRAC_PI_4 };
+            z + (s >> 4) as f64 * 1e-10 * if s & 1 == 0 { 1.0 } else { -1.0 }
+        }
         Fun::Tan => {
             let mut x = pick(&[(0.0, 1.4, false), (1.4, 100.0, false), TINY], true, s, u);
             if x.cos().abs() < 0.05 {
@@ -444,7 +460,7 @@ impl Property for C01 {
         sweep(tier, st)
     }
     fn rule() -> String {
-        "generated: (type from the 58-type registry incl. f32, static/dynamic vector, nested; function from the 29 elementary functions; real part from per-function strata incl. negative, tiny, large (atan2: 10% on an axis, 10% on a diagonal |y| = |x|); every derivative part from a mixture 0/+-1/dyadic/uniform/log-uniform; optional parts absent 25%, explicit zeros 10%). Oracle: the function applied in the independent group-nilsquare reference algebra with power-series recurrences, tolerance 32*u*e per part with e the running first-order rounding bound (summed magnitude of contributing terms). One case in ten takes the real part from the wide-magnitude stratum |x| = 10^e, e uniform in +-300/(d+1) (f32: +-36/(d+1)), d the total order of the type (2d+1 for nested types), where every true derivative is representable; one unary case in four is a pure first-order seed (all operand parts of order >= 2 zero). Non-trivial: an operand part of order >= 2 is non-zero (order-1 types and pure seeds: a non-zero non-unit first-order part) and 32*u*e <= 1e-3 * (summed term magnitude); distinct = distinct case fingerprints.".into()
+        "generated: (type from the 58-type registry incl. f32, static/dynamic vector, nested; function from the 29 elementary functions; real part from per-function strata incl. negative, tiny, large (atan2: 10% on an axis, 10% on a diagonal |y| = |x|; sin, cos, sin_cos, tan: one in seven at a multiple of pi/4 plus 0..1.5e-9); every derivative part from a mixture 0/+-1/dyadic/uniform/log-uniform; optional parts absent 25%, explicit zeros 10%). Oracle: the function applied in the independent group-nilsquare reference algebra with power-series recurrences, tolerance 32*u*e per part with e the running first-order rounding bound (summed magnitude of contributing terms). One case in ten takes the real part from the wide-magnitude stratum |x| = 10^e, e uniform in +-300/(d+1) (f32: +-36/(d+1)), d the total order of the type (2d+1 for nested types), where every true derivative is representable; one unary case in four is a pure first-order seed (all operand parts of order >= 2 zero). Non-trivial: an operand part of order >= 2 is non-zero (order-1 types and pure seeds: a non-zero non-unit first-order part) and 32*u*e <= 1e-3 * (summed term magnitude); distinct = distinct case fingerprints.".into()
     }
     fn assumptions() -> Vec<String> {
         vec![
